@@ -162,7 +162,7 @@ def run(ctx):
 
     # ---- decoder flip
     fl = [a for a in dec.find(domain="comb", target="codeword_c") if a.v != "codeword"]
-    ok = len(fl) == 1 and fl[0].v == "codeword ^ 1 << i - 1" and q.EQ(fl[0], B.A("syndrome == i"))
+    ok = len(fl) == 1 and fl[0].v == "codeword ^ 2 ** (i - 1)" and q.EQ(fl[0], B.A("syndrome == i"))
     ctx.ob("H1", F, "ECCDecoder", "syndrome i flips bit i - 1", ok, "" if ok else f"{[(a.v, a.gtext()) for a in fl]}", fl[0].line if fl else 0)
     ok = len(fl) == 1 and any(it == "range(1, 2 ** len(syndrome))" for _, it in fl[0].loops)
     ctx.ob("H1", F, "ECCDecoder", "flip cases for every syndrome 1 .. 2**m - 1", ok, "" if ok else f"{fl[0].loops if fl else '?'}")
